@@ -403,6 +403,93 @@ fn config_around_footer(prop: &str, proto: Proto, acc: &mut Acc) {
     adapter::reset_verdicts();
 }
 
+/// C16: whichever error a validator returns, and whether the claim is present, absent or null, the parse fails
+/// (and the validator was handed the payload's value); C15: an expectation under the empty key and under keys
+/// made of white space counts like any other
+fn error_variants_and_odd_keys(prop: &str, proto: Proto, acc: &mut Acc) {
+    let pool = domains::key_pool(proto);
+    let key = &pool[0];
+    let seed = if proto.is_local() { domains::seeds(proto)[2].clone() } else { vec![] };
+    let issue = |payload: &str| adapter::core_issue(proto, &key.sk, &seed, payload, None, None).ok().cloned();
+    if prop == "C16" {
+        let (Some(present), Some(absent), Some(null)) = (issue("{\"role\":\"admin\",\"data\":1}"), issue("{\"data\":1}"), issue("{\"role\":null,\"data\":1}")) else { return };
+        let tokens = vec![present, absent, null];
+        let handed = [json!("admin"), Value::Null, Value::Null];
+        for variant in 0..9u8 {
+            for (layer, default) in [(Layer::Generic, false), (Layer::Prelude, false), (Layer::Prelude, true)] {
+                for route in ["validate_claim", "extend_validation_claims"] {
+                    if route == "extend_validation_claims" && layer != Layer::Generic {
+                        continue;
+                    }
+                    adapter::reset_verdicts();
+                    adapter::set_verdict(2, adapter::Verdict::RejectWith(variant));
+                    let mut ops: Vec<POp> = if route == "validate_claim" { vec![POp::Validate("role".into(), 2)] } else { vec![POp::ExtendValidate(vec![("role".into(), 2)])] };
+                    ops.extend((0..tokens.len()).map(|ti| POp::Parse(ti, 0)));
+                    let _ = adapter::take_calls();
+                    let ev = adapter::parse_history(proto, layer, default, &[key.pk.clone()], &tokens, &ops);
+                    adapter::reset_verdicts();
+                    let parsed: Vec<&PEvent> = ev.iter().filter(|e| matches!(e, PEvent::Parsed(..))).collect();
+                    for (ti, e) in parsed.iter().enumerate() {
+                        let PEvent::Parsed(o, calls) = e else { continue };
+                        acc.executions += 1;
+                        let mine: Vec<&adapter::ValidatorCall> = calls.iter().filter(|c| c.slot == 2).collect();
+                        let problem = if o.is_ok() {
+                            Some("the validator returned an error, yet the parse succeeded".to_string())
+                        } else if mine.len() != 1 || mine[0].key != "role" || mine[0].value != handed[ti] {
+                            Some(format!("the validator calls were {:?}, expected exactly one with (\"role\", {})", mine.iter().map(|c| (&c.key, &c.value)).collect::<Vec<_>>(), handed[ti]))
+                        } else {
+                            None
+                        };
+                        match problem {
+                            None => acc.bump("error-variant:parse-failed"),
+                            Some(w) => acc.violate(
+                                format!("C16|{}|{:?}{}|validator-error-variant-{}|{}", proto.name(), layer, if default { "(default)" } else { "" }, variant, ["present", "absent", "null"][ti]),
+                                format!("{} with a validator for \"role\" that returns error variant #{} of PasetoClaimError; token with the claim {}: {}", route, variant, ["present", "absent", "null"][ti], w),
+                                json!({"config_around_footer": {"proto": proto}, "variant": variant}),
+                            ),
+                        }
+                    }
+                }
+            }
+        }
+    } else {
+        for k in ["", " ", "\t", "\u{a0}"] {
+            let member = serde_json::to_string(k).unwrap();
+            let (Some(t_ok), Some(t_other), Some(t_missing)) = (issue(&format!("{{{}:\"admin\",\"data\":1}}", member)), issue(&format!("{{{}:\"guest\",\"data\":1}}", member)), issue("{\"data\":1}")) else { continue };
+            let tokens = vec![t_ok, t_other, t_missing];
+            let want = [true, false, false];
+            for layer in [Layer::Generic, Layer::Prelude] {
+                for route in ["check_claim", "extend_check_claims"] {
+                    if route == "extend_check_claims" && layer != Layer::Generic {
+                        continue;
+                    }
+                    let spec = ClaimSpec { key: k.to_string(), value: json!("admin"), form: Form::TupleString };
+                    let mut ops: Vec<POp> = if route == "check_claim" { vec![POp::Check(spec)] } else { vec![POp::ExtendCheck(vec![spec])] };
+                    ops.extend((0..tokens.len()).map(|ti| POp::Parse(ti, 0)));
+                    let ev = adapter::parse_history(proto, layer, false, &[key.pk.clone()], &tokens, &ops);
+                    // the constructor may refuse such a key (then nothing was registered: not this property's business)
+                    if ev.iter().any(|e| matches!(e, PEvent::Ctor(_))) {
+                        acc.bump("odd-key:constructor-refused");
+                        continue;
+                    }
+                    let outs: Vec<bool> = ev.iter().filter_map(|e| if let PEvent::Parsed(o, _) = e { Some(o.is_ok()) } else { None }).collect();
+                    acc.executions += 3;
+                    if outs == want {
+                        acc.controls_ok += 1;
+                        acc.bump("odd-key:conforms");
+                    } else {
+                        acc.violate(
+                            format!("C15|{}|{:?}|odd-key-expectation|{}", proto.name(), layer, route),
+                            format!("{}(({:?}, \"admin\")); tokens carrying {:?}: \"admin\" / \"guest\" / no such member -> accepted = {:?}, expected {:?}", route, k, k, outs, want),
+                            json!({"config_around_footer": {"proto": proto}, "odd_key": k}),
+                        );
+                    }
+                }
+            }
+        }
+    }
+}
+
 /// N expectations / N validators on one parser, N on both sides of powers of two: every one of them counts
 fn many_registrations(prop: &str, proto: Proto, quick: bool, acc: &mut Acc) {
     let pool = domains::key_pool(proto);
@@ -581,6 +668,7 @@ pub fn run(prop: &'static str, tier: &str) -> i32 {
             if matches!(p, Proto::V4L | Proto::V2P) {
                 many_registrations(prop, *p, quick, &mut acc);
             }
+            error_variants_and_odd_keys(prop, *p, &mut acc);
             acc
         });
         all.merge(Acc::merge_all(accs));
